@@ -50,7 +50,7 @@ def stLine (s : DbState) : String := s!"st {s.cmds.length}"
 
 def step (st : St) (l : String) : St × String :=
   let pending : List Cmd := st.ds.db.toList
-  let clear (s : DbState) : St := { ds := { st.ds with db := #[] }, s := s }
+  let clear (s : DbState) : St := { ds := { st.ds with db := #[], cache := none }, s := s }
   let ri := st.ds.ri
   match words l with
   | ["snapshot"] => (clear st.s, snapshot pending)
@@ -70,14 +70,15 @@ def step (st : St) (l : String) : St × String :=
   | "hsearch" :: q :: rest =>
     match Bytes.ofHex q, parseOpts rest with
     | some q, some o =>
-      let T := Driver.Search.tuning st.ds
+      let T := Driver.Search.tuning { st.ds with nlpDb := some st.s.cmds }
       let mk : List Cmd → Bytes → List (Nat × Float) := fun _ _ => st.ds.tf.getD []
       let r := DbState.answer T mk st.s q o
       ({ st with s := DbState.step ri st.s (.search q o) }, Driver.Search.fmtResults r)
     | _, _ => (st, "bad-op")
   | _ =>
-    let (d, out) := Driver.Search.step st.ds l
-    ({ st with ds := d }, out)
+    -- oracle lines (`pq` / `ib` / `cb`) are compared with the model's NLP layer on the commands of the current state
+    let (d, out) := Driver.Search.step { st.ds with nlpDb := some st.s.cmds } l
+    ({ st with ds := { d with nlpDb := none } }, out)
 
 def runCase (ops : Array String) : Array String := Id.run do
   let mut st : St := {}
